@@ -444,19 +444,16 @@ Qed.
    there a child re-keyed by _update_kids can take the incoming id, which __setitem__ then writes back *)
 Definition mv_guardb (E : env) (s : state) (dst src : eid) (sd : bool) : bool :=
   Nat.eqb dst src ||
-  match nth_error (ents s) dst with
-  | None => true
-  | Some en =>
-    match s_otype (gs en sd), s_path (gs en sd) with
-    | Dir, Some pp =>
-        (match path_of s src sd with Some p => negb (belowb (cvs E sd) pp p) | None => true end) &&
-        (match oid_of s src sd with Some _ => negb (oip E sd) | None => true end)
-    | _, _ => true
-    end
+  match otype_of s dst sd, path_of s dst sd with
+  | Some Dir, Some pp =>
+      (match path_of s src sd with Some p => negb (belowb (cvs E sd) pp p) | None => true end) &&
+      (match oid_of s src sd with Some _ => negb (oip E sd) | None => true end)
+  | _, _ => true
   end.
 
-Lemma move_side_pres E s dst src sd s' :
-  env_ok E -> IdxJ s -> mv_guardb E s dst src sd = true -> move_side E s dst src sd = Ok s' -> IdxJ s'.
+Lemma move_side_spec E s dst src sd s' :
+  env_ok E -> IdxJ s -> mv_guardb E s dst src sd = true -> move_side E s dst src sd = Ok s' ->
+  IdxJ s' /\ forall x, path_of s' x (negb sd) = path_of s x (negb sd).
 Proof.
   intros HE HJ Hg H. pose proof HE as [Hl Hok]. unfold move_side in H.
   bind_inv' H. rename x into sn. bind_inv' H. rename x into s1. bind_inv' H. rename x into s2.
@@ -488,10 +485,9 @@ Proof.
     rewrite P2 in Hpa. destruct (Nat.eqb_spec dst src) as [Heq|Hneq].
     - rewrite bool_eqb_refl in Hpa. cbn in Hpa. split; [intros _ qq p Hq; rewrite Hpa in Hq; discriminate|intros _; right; right; exact Hpa].
     - cbn [andb] in Hpa. unfold mv_guardb in Hg. destruct (Nat.eqb_spec dst src); [contradiction|]. cbn [orb] in Hg.
-      unfold otype_of in Hta. unfold path_of in Hpa. destruct (nth_error (ents s) dst) as [ens|]; [|discriminate].
-      injection Hta as Hta. rewrite Hta, Hpa.
-      destruct (s_otype (gs ens sd)); try (split; [intros Hd; discriminate|intros _; right; left; discriminate]).
-      destruct (s_path (gs ens sd)) as [pp|]; [|split; [intros _ qq p Hq; discriminate|intros _; right; right; reflexivity]].
+      rewrite <- Hta, <- Hpa in Hg.
+      destruct (s_otype (gs en sd)); try (split; [intros Hd; discriminate|intros _; right; left; discriminate]).
+      destruct (s_path (gs en sd)) as [pp|]; [|split; [intros _ qq p Hq; discriminate|intros _; right; right; reflexivity]].
       apply andb_prop in Hg as [Hg1 Hg2]. split.
       + intros _ qq p Hq Hp' Hb. injection Hq as <-. rewrite Hsp, Hp' in Hg1. apply belowb_spec in Hb. rewrite Hb in Hg1. discriminate.
       + intros Hno. left. rewrite Hso in Hg2. destruct no; [|contradiction]. apply negb_true_iff in Hg2. exact Hg2. }
@@ -510,8 +506,15 @@ Proof.
     pose proof (exec_oid_pview _ _ _ _ _ _ _ _ E7) as Hpva.
     destruct (oid_of_some_ent _ _ _ _ Hoa) as [ena [Hena _]].
     destruct (HG sa ena (fun x sd' => proj1 (pview_eq _ _ Hpva x sd')) (fun x sd' => proj2 (pview_eq _ _ Hpva x sd')) Hena) as [Hgd Hkeep].
-    destruct (exec_path_false_pres E Hl Hok _ _ _ _ _ _ _ HJa Hena Hgd E4) as [A [_ [_ D]]].
+    destruct (exec_path_false_pres E Hl Hok _ _ _ _ _ _ _ HJa Hena Hgd E4) as [A [B [_ D]]].
     specialize (D (Hkeep ltac:(discriminate))).
+    split.
+    2:{ intros x. rewrite Pt. destruct (Bool.eqb_spec (negb sd) sd) as [Hc|_]; [destruct sd; discriminate|]. rewrite andb_false_r.
+        rewrite (proj2 (He4 x (negb sd))).
+        destruct (B x (negb sd)) as [B1|[Hc _]]; [|destruct sd; discriminate].
+        rewrite path_of_raw_side in B1. destruct (Bool.eqb_spec (negb sd) sd) as [Hc|_]; [destruct sd; discriminate|]. rewrite andb_false_r in B1.
+        rewrite B1, (proj1 (pview_eq _ _ Hpva x (negb sd))), P2.
+        destruct (Bool.eqb_spec (negb sd) sd) as [Hc|_]; [destruct sd; discriminate|]. rewrite andb_false_r. reflexivity. }
     apply (IdxJ_obs (raw_side s3 dst sd (fun y => w_path y np))); [|exact A].
     split; [|split; [|split]].
     + intros x sd'. rewrite Ot, D.
@@ -527,8 +530,12 @@ Proof.
     destruct (get_ent s2 dst) as [en2|] eqn:Hen2.
     2:{ destruct (fuel_of s2); [discriminate|]. simpl in E7. rewrite Hen2 in E7. discriminate. }
     destruct (HG s2 en2 (fun _ _ => eq_refl) (fun _ _ => eq_refl) Hen2) as [Hgd _].
-    destruct (exec_path_false_pres E Hl Hok _ _ _ _ _ _ _ HJ2 Hen2 Hgd E7) as [A [_ [C _]]].
+    destruct (exec_path_false_pres E Hl Hok _ _ _ _ _ _ _ HJ2 Hen2 Hgd E7) as [A [B [C _]]].
     set (u := raw_side sa dst sd (fun y => w_path y np)) in *.
+    assert (Hns: Bool.eqb (negb sd) sd = false) by (destruct sd; reflexivity).
+    assert (Hfr: forall x, path_of sa x (negb sd) = path_of s x (negb sd)).
+    { intros x. destruct (B x (negb sd)) as [B1|[Hc _]]; [|destruct sd; discriminate].
+      unfold u in B1. rewrite path_of_raw_side, Hns, andb_false_r in B1. rewrite B1, P2, Hns, andb_false_r. reflexivity. }
     assert (Hna: nth_error (ents sa) dst <> None).
     { intros Hc. destruct (fuel_of sa); [discriminate|]. simpl in E4. unfold get_ent in E4. rewrite Hc in E4. discriminate. }
     assert (Uo: forall x sd', oid_of u x sd' = oid_of sa x sd').
@@ -543,6 +550,8 @@ Proof.
       assert (Hidx: al_get o (oids sa sd) = Some dst).
       { rewrite <- UO. apply (proj1 A dst sd o). rewrite Uo. exact Eod. }
       destruct (exec_oid_none_self _ _ _ _ _ _ _ _ Eod Hidx E4) as [F1 [F2 [F3 [F4 F5]]]]. cbn [andb] in F1.
+      split.
+      2:{ intros x. rewrite Pt, Hns, andb_false_r, (proj2 (He4 x (negb sd))), F2. apply Hfr. }
       apply (idx_unindex u _ dst sd o A); [rewrite Uo; exact Eod| | | | |].
       * intros x sd'. rewrite Ot. destruct (Nat.eqb x dst && Bool.eqb sd' sd)%bool; [reflexivity|].
         rewrite (proj1 (He4 x sd')), F1, Uo. reflexivity.
@@ -556,6 +565,8 @@ Proof.
     + (* dst had no id *)
       pose proof (exec_oid_none_noid _ _ _ _ _ _ _ Eod E4) as Hv3.
       destruct (iview_eq _ _ Hv3) as [He3 [Ho3 Hp3]].
+      split.
+      2:{ intros x. rewrite Pt, Hns, andb_false_r, (proj2 (He4 x (negb sd))), (proj2 (He3 x (negb sd))). apply Hfr. }
       apply (IdxJ_obs u); [|exact A]. split; [|split; [|split]].
       * intros x sd'. rewrite Ot, Uo. destruct (Nat.eqb_spec x dst) as [->|]; cbn [andb]; [|rewrite (proj1 (He4 x sd')); apply (proj1 (He3 x sd'))].
         destruct (Bool.eqb_spec sd' sd) as [->|]; [symmetry; exact Eod|rewrite (proj1 (He4 dst sd')); apply (proj1 (He3 dst sd'))].
@@ -563,4 +574,56 @@ Proof.
         rewrite (proj2 (He4 x sd')). apply (proj2 (He3 x sd')).
       * intros sd' k. rewrite OOt, Ho4, Ho3, UO. reflexivity.
       * intros sd' p k. rewrite PPt, UP, (slot_get_paths s4 s3 sd' (Hp4 sd')). apply slot_get_paths. apply Hp3.
+Qed.
+
+Lemma move_side_pres E s dst src sd s' :
+  env_ok E -> IdxJ s -> mv_guardb E s dst src sd = true -> move_side E s dst src sd = Ok s' -> IdxJ s'.
+Proof. intros HE HJ Hg H. apply (move_side_spec _ _ _ _ _ _ HE HJ Hg H). Qed.
+
+(* ------------------------------------------------------------------ SideState.clear and SyncState.split *)
+Lemma path_guardb_none E s e sd : path_guardb E s e sd None = true.
+Proof. unfold path_guardb. destruct (nth_error (ents s) e); reflexivity. Qed.
+
+Lemma clear_side_pres E s e sd s' : env_ok E -> IdxJ s -> clear_side E s e sd = Ok s' -> IdxJ s'.
+Proof.
+  intros HE HJ H. unfold clear_side in H.
+  bind_inv2 H s1 E1. bind_inv2 H s2 E2. bind_inv2 H s3 E3. bind_inv2 H s4 E4. bind_inv2 H s5 E5.
+  bind_inv2 H s6 E6. bind_inv2 H s7 E7. injection H as <-.
+  assert (H1: IdxJ s1) by (eapply set_plain_pres; [|exact HJ|exact E1]; intros y; split; reflexivity).
+  assert (H2: IdxJ s2) by (eapply set_changed_pres; eassumption).
+  assert (H3: IdxJ s3) by (eapply set_plain_pres; [|exact H2|exact E3]; intros y; split; reflexivity).
+  assert (H4: IdxJ s4) by (eapply set_plain_pres; [|exact H3|exact E4]; intros y; split; reflexivity).
+  assert (H5: IdxJ s5) by (eapply set_plain_pres; [|exact H4|exact E5]; intros y; split; reflexivity).
+  assert (H6: IdxJ s6) by (eapply set_path_pres; [exact HE|exact H5|apply path_guardb_none|exact E6]).
+  assert (H7: IdxJ s7) by (eapply set_oid_pres; eassumption).
+  apply (IdxJ_view s7); [reflexivity|exact H7].
+Qed.
+
+Lemma split_pres E s e s' : env_ok E -> IdxJ s -> split E s e = Ok s' -> IdxJ s'.
+Proof.
+  intros HE HJ H. unfold split in H. bind_inv2 H en E0.
+  destruct (add_entry s (s_otype (e_l en))) as [s0 re] eqn:Ea.
+  destruct (negb (tstr (s_oid (e_l en)))); [discriminate|].
+  bind_inv2 H s1 E1. bind_inv2 H rn E2.
+  destruct (negb (tstr (s_oid (e_l rn)))); [discriminate|].
+  bind_inv2 H en1 E3. bind_inv2 H s1a E4.
+  match type of H with (if ?c then _ else _) = _ => destruct c; [discriminate|] end.
+  bind_inv2 H s2 E5. bind_inv2 H y E6. destruct y as [l2 s2b].
+  destruct (negb (set_mem re (get_all s2))); [discriminate|].
+  bind_inv2 H s3 E7. bind_inv2 H s4 E8. bind_inv2 H s5 E9.
+  assert (H0: IdxJ s0) by (pose proof (add_entry_pres s (s_otype (e_l en)) HJ) as Hx; rewrite Ea in Hx; exact Hx).
+  assert (Hfresh: path_of s0 re false = None) by (pose proof (add_entry_fresh s (s_otype (e_l en)) false) as Hx; rewrite Ea in Hx; exact Hx).
+  assert (H1: IdxJ s1).
+  { eapply move_side_pres; [exact HE|exact H0| |exact E1]. unfold mv_guardb. rewrite Hfresh.
+    destruct (Nat.eqb re e); [reflexivity|]. destruct (otype_of s0 re false) as [[| |]|]; reflexivity. }
+  assert (H1a: IdxJ s1a).
+  { destruct (s_oid (e_l en1)); [|injection E4 as <-; exact H1].
+    bind_inv2 E4 y E10. destruct y as [l1 sx]. destruct (set_mem re (get_all s1)); [|discriminate]. injection E4 as <-.
+    apply (IdxJ_view s1); [symmetry; eapply get_all_ordered_view; exact E10|exact H1]. }
+  assert (H2: IdxJ s2) by (eapply clear_side_pres; eassumption).
+  assert (H2b: IdxJ s2b) by (apply (IdxJ_view s2); [symmetry; eapply get_all_ordered_view; exact E6|exact H2]).
+  assert (H3: IdxJ s3) by (eapply mark_changed_pres; eassumption).
+  assert (H4: IdxJ s4) by (eapply mark_changed_pres; eassumption).
+  assert (H5: IdxJ s5) by (eapply set_plain_pres; [|exact H4|exact E9]; intros y; split; reflexivity).
+  eapply set_plain_pres; [|exact H5|exact H]; intros y; split; reflexivity.
 Qed.
